@@ -1152,3 +1152,94 @@ Theorem C05_db_covered_histories_then_reopen_partial :
       forall q, sd_query_ok q -> snd (Queries.exec rv d1 q) = snd (Queries.exec rv dN q).
 Proof. exact so_covered_then_maintenance. Qed.
 Print Assumptions C05_db_covered_histories_then_reopen_partial.
+
+(* ---- COVERED HISTORIES WITHOUT THE PROPERTY RESTRICTION ON REMOVALS (theories/StoredDbOpsLinkKv.v, ..Slots.v, ..Hist2.v,
+        ..Final2.v) ----
+   The removal of an element WITHOUT properties needs to know that the element's property vector is allocated in the file
+   (so_slot_valid: for a LAST slot holding 0 the code keeps the slot while DbModel pops the entry).  That fact is not a
+   function of the database d — it is an invariant of the pair (d, witness):
+     slots_ok d w   every existing element's slot of the DbKeyValues slot vector is <> 0
+   (true of every file the real database writes: every public insertion reserves capacity for the element it creates).
+   The DbKeyValues programs and the so_q programs are proved again with the slot vector visible (allocated slots stay
+   allocated; insert_value / reserve_capacity / insert_or_replace leave the slot they work on allocated; remove frees the
+   removed element's slot only), the set of elements changes by exactly the created / removed element (from C08's
+   simulation), hence every covered query PRESERVES slots_ok:
+   C05_db_covered2_query_preserves_stored_db: wf (gr d) + slots_ok d w + so_covered2 d c (as so_covered; a removal needs no
+     property) => the program ends in a store holding fst (exec rv d q), with exec's id, and slots_ok again.
+   C05_db_covered2_histories_preserve_stored_db_partial: every history of so_covered2 queries from a stored database with HInv
+     and slots_ok: stored for the fold of exec rv_fixed, exec's ids, HInv and slots_ok again.
+   C05_db_covered2_histories_then_reopen_partial: the same END TO END on the model of storage.rs (stored_db_slots g root d =
+     exists w, stored_db_w g root d w /\ slots_ok d w): programs of the history, optimize_storage / drop + open / backup +
+     open, load_db: the loaded database is the fold of exec up to sd_eqv and answers every sd_query_ok query as it does.
+   _partial — NOT COVERED: aliases, indexes, cascading removals (a node with edges), multi-element queries, failing queries
+   other than the rejected edge insertion, multi-query transactions, remove values / remove aliases / remove index. *)
+From Agdb Require Import StoredDbOpsLinkKv StoredDbOpsLinkSlots StoredDbOpsLinkHist2 StoredDbOpsLinkFinal2 StoredDbOpsLinkDec2
+  StoredDbOpsLinkExample2.
+
+Theorem C05_db_covered2_query_preserves_stored_db :
+  forall (fl : bool) rv root d w h c sp,
+    stored_db_w (hp sp) root d w -> so_handles h w -> GraphSim.wf (gr d) -> slots_ok d w -> so_covered2 d c ->
+    cwp fl (cq_run h c) sp
+        (fun r sp' => exists h' w', r = CrOk (h', cq_out (snd (Queries.exec rv d (cq_query c)))) /\
+                        stored_db_w (hp sp') root (fst (Queries.exec rv d (cq_query c))) w' /\ so_handles h' w' /\
+                        slots_ok (fst (Queries.exec rv d (cq_query c))) w' /\
+                        sdepth sp' = sdepth sp /\ frame (hp sp) (hp sp') (sd_foot root w) (sd_foot root w')).
+Proof. exact so_cq_stored2. Qed.
+Print Assumptions C05_db_covered2_query_preserves_stored_db.
+
+Theorem C05_db_covered2_histories_preserve_stored_db_partial :
+  forall (fl : bool) root l d w h sp,
+    stored_db_w (hp sp) root d w -> so_handles h w -> HistoryAtomicProofs.HInv d -> slots_ok d w ->
+    so_covered_all2 rv_fixed d l ->
+    cwp fl (cq_runs h l) sp
+        (fun r sp' => exists h' w', r = CrOk (h', snd (cq_model rv_fixed d l)) /\
+                        stored_db_w (hp sp') root (fst (cq_model rv_fixed d l)) w' /\ so_handles h' w' /\
+                        HistoryAtomicProofs.HInv (fst (cq_model rv_fixed d l)) /\ slots_ok (fst (cq_model rv_fixed d l)) w' /\
+                        sdepth sp' = sdepth sp /\ frame (hp sp) (hp sp') (sd_foot root w) (sd_foot root w')).
+Proof. exact so_cqs_stored2. Qed.
+Print Assumptions C05_db_covered2_histories_preserve_stored_db_partial.
+
+Theorem C05_db_covered2_histories_on_storage_partial :
+  forall (ops : store_ops cdata) (fl : bool), StorageProofs.kind ops fl ->
+  forall s sp root d l, Rel s sp -> stored_db_slots (hp sp) root d -> HistoryAtomicProofs.HInv d -> so_covered_all2 rv_fixed d l ->
+    let r := cp_run (st_step cdata ops) (h <~ so_open root ;; cq_runs h l) s in
+    snd r = CrDead \/
+    exists sp' h', Rel (fst r) sp' /\ snd r = CrOk (h', snd (cq_model rv_fixed d l)) /\
+                   stored_db_slots (hp sp') root (fst (cq_model rv_fixed d l)) /\
+                   HistoryAtomicProofs.HInv (fst (cq_model rv_fixed d l)) /\ sdepth sp' = sdepth sp.
+Proof. exact so_covered_on_storage2. Qed.
+Print Assumptions C05_db_covered2_histories_on_storage_partial.
+
+Theorem C05_db_covered2_histories_then_reopen_partial :
+  forall (ops : store_ops cdata) (fl : bool), StorageProofs.kind ops fl ->
+  forall rv s sp root d l o,
+    Rel s sp -> sdepth sp = 0%N -> stored_db_slots (hp sp) root d -> HistoryAtomicProofs.HInv d -> so_covered_all2 rv_fixed d l ->
+    cv_is_maint o = true ->
+    let r := cp_run (st_step cdata ops) (h <~ so_open root ;; cq_runs h l) s in
+    let dN := fst (cq_model rv_fixed d l) in
+    snd r = CrDead \/
+    snd (st_step cdata ops (fst r) o) = ObPanic \/
+    exists h' sp2 d1,
+      snd r = CrOk (h', snd (cq_model rv_fixed d l)) /\
+      Rel (fst (st_step cdata ops (fst r) o)) sp2 /\ sdepth sp2 = 0%N /\ stored_db (hp sp2) root dN /\
+      load_db (sm sp2) root = Some d1 /\ sd_eqv dN d1 /\
+      forall q, sd_query_ok q -> snd (Queries.exec rv d1 q) = snd (Queries.exec rv dN q).
+Proof. exact so_covered_then_maintenance2. Qed.
+Print Assumptions C05_db_covered2_histories_then_reopen_partial.
+
+Theorem C05_db_covered2_decidable :
+  forall d c, (so_coveredb2 d c = true <-> so_covered2 d c) /\ (so_covered d c -> so_covered2 d c).
+Proof. exact (fun d c => conj (so_coveredb2_iff d c) (so_covered_covered2 d c)). Qed.
+Print Assumptions C05_db_covered2_decidable.
+
+(* non-vacuity.  In the HAND-BUILT example file node 2 has no property vector (slot 0): slots_ok fails there — no file written
+   by the real database looks like that.  Running `insert values [] ids 2` on it (so_open; so_q_insert_values on the model
+   of storage.rs, every answer replayed on the abstract record map) allocates the vector and changes nothing else: the
+   record map reached HOLDS sx_db with slots_ok; sx_db satisfies HInv; and the history [insert edge 2 -> 1; remove that edge
+   (-4, which has no property)] is covered *)
+Example C05_db_sample_covered2_history :
+  exists sp w, stored_db_w (hp sp) 1 sx_db w /\ slots_ok sx_db w /\ HistoryAtomicProofs.HInv sx_db /\
+               so_covered_all2 rv_fixed sx_db [CqInsertEdge 2 1; CqRemove (-4)] /\
+               kvs_get (vals (fst (Queries.exec rv_fixed sx_db (cq_query (CqInsertEdge 2 1))))) (-4) = [].
+Proof. exact sz_sample. Qed.
+Print Assumptions C05_db_sample_covered2_history.
